@@ -503,6 +503,25 @@ def check(ctx):
                                     N.subst(s.value, henv))
                                 for s in body):
                             sets = True
+                if not sets:
+                    # ... or further down: the handler leaves a reason in a
+                    # local and the statements after the try suspend the
+                    # monitor whenever a reason was left - no path from the
+                    # handler to the end of the iteration misses the store
+                    hnodes = [n for n in graph.nodes
+                              if n.kind == 'handler' and n.ast is hdl]
+
+                    def suspends(node):
+                        return node.kind == 'stmt' and isinstance(
+                            node.ast, ast.Assign) and N.txt(
+                                node.ast.targets[0]) == '%s[%s]' % (
+                                    svar, nvar) and '_DELAY_INTERVAL' in \
+                            K.rtxt(func, node.ast.value)
+                    if hnodes:
+                        lp = K.enclosing_for(graph, hnodes[0])
+                        goals = [graph.exit] + ([lp] if lp else [])
+                        sets = K.const_path(graph, hnodes[0], goals,
+                                            cut_node=suspends) is None
                 handled[name] = sets
     specific = {k: v for k, v in handled.items()
                 if k not in ('Exception', 'bare')}
